@@ -114,14 +114,49 @@ type User struct {
 	Custom                                                []Custom
 }
 
-// AuthReq is a stored authentication request.
+// AuthReq is a stored authentication request. The record is live: the views handed to the handlers read it at the
+// moment of each accessor call, as with a storage that hands out the object the login UI works on.
 type AuthReq struct {
 	ID, AppID, RelayState, ACS, Binding, AuthRequestID, Issuer, Destination, UserID string
 	done                                                                            atomic.Bool
+
+	lmu   sync.Mutex
+	live  string // the bound user once SwitchUser was used (UserID stays what it was at creation)
+	reads int
+	// AfterRead, when set, runs after the n-th (1-based) accessor call on this record has taken its value and before
+	// that value is returned to the handler: the place where a login UI working on the same record gets its turn.
+	AfterRead func(field string, n int)
 }
 
 func (a *AuthReq) SetDone(b bool) { a.done.Store(b) }
 func (a *AuthReq) IsDone() bool   { return a.done.Load() }
+
+// SwitchUser binds the request to another user (account picker of the login UI).
+func (a *AuthReq) SwitchUser(id string) {
+	a.lmu.Lock()
+	a.live = id
+	a.lmu.Unlock()
+}
+
+// BoundUser is the user the record names now.
+func (a *AuthReq) BoundUser() string {
+	a.lmu.Lock()
+	defer a.lmu.Unlock()
+	if a.live != "" {
+		return a.live
+	}
+	return a.UserID
+}
+
+func (a *AuthReq) read(field string) {
+	a.lmu.Lock()
+	a.reads++
+	n, f := a.reads, a.AfterRead
+	a.lmu.Unlock()
+	if f != nil {
+		f(field, n)
+	}
+}
 
 // reqView is the per-lookup wrapper handed to the handler so that Done(),
 // which has no context argument, is attributed to the calling request.
@@ -131,19 +166,32 @@ type reqView struct {
 	r   *AuthReq
 }
 
-func (v *reqView) GetID() string                       { return v.r.ID }
-func (v *reqView) GetApplicationID() string            { return v.r.AppID }
-func (v *reqView) GetRelayState() string               { return v.r.RelayState }
-func (v *reqView) GetAccessConsumerServiceURL() string { return v.r.ACS }
-func (v *reqView) GetBindingType() string              { return v.r.Binding }
-func (v *reqView) GetAuthRequestID() string            { return v.r.AuthRequestID }
-func (v *reqView) GetIssuer() string                   { return v.r.Issuer }
-func (v *reqView) GetDestination() string              { return v.r.Destination }
-func (v *reqView) GetUserID() string                   { return v.r.UserID }
+func (v *reqView) GetID() string            { s := v.r.ID; v.r.read("ID"); return s }
+func (v *reqView) GetApplicationID() string { s := v.r.AppID; v.r.read("ApplicationID"); return s }
+func (v *reqView) GetRelayState() string    { s := v.r.RelayState; v.r.read("RelayState"); return s }
+func (v *reqView) GetAccessConsumerServiceURL() string {
+	s := v.r.ACS
+	v.r.read("AccessConsumerServiceURL")
+	return s
+}
+func (v *reqView) GetBindingType() string { s := v.r.Binding; v.r.read("BindingType"); return s }
+func (v *reqView) GetAuthRequestID() string {
+	s := v.r.AuthRequestID
+	v.r.read("AuthRequestID")
+	return s
+}
+func (v *reqView) GetIssuer() string      { s := v.r.Issuer; v.r.read("Issuer"); return s }
+func (v *reqView) GetDestination() string { s := v.r.Destination; v.r.read("Destination"); return s }
+func (v *reqView) GetUserID() string {
+	s := v.r.BoundUser()
+	v.r.read("UserID")
+	return s
+}
 func (v *reqView) Done() bool {
 	v.w.delay("Done")
 	d := v.r.done.Load()
 	v.w.log(Event{Tag: v.tag, Op: "Done", Args: []string{v.r.ID}, Res: fmt.Sprint(d)})
+	v.r.read("Done")
 	return d
 }
 
@@ -167,15 +215,15 @@ type World struct {
 	MetaKey *key.CertificateAndKey
 	CAKey   *key.CertificateAndKey
 
-	Plan    FaultPlan
-	Delay   func(op string) // called inside every storage call (concurrency runs)
+	Plan  FaultPlan
+	Delay func(op string) // called inside every storage call (concurrency runs)
 	// Before runs at the start of every storage call, before the fault plan is consulted: it may sleep, wait for
 	// another request to reach a certain point (barriers) or cancel a context. occ is the 1-based occurrence of op
 	// within the tagged request.
 	Before func(ctx context.Context, tag, op string, occ int)
 	// PartialDelay is slept between the partial fill and the error of a FaultPartial user lookup.
 	PartialDelay time.Duration
-	Lenient bool            // GetEntityByID matches ignoring case / surrounding blanks / trailing slash
+	Lenient      bool // GetEntityByID matches ignoring case / surrounding blanks / trailing slash
 	// NilForUnknown makes GetEntityByID answer (nil, nil) for an entity that is not registered, instead of an error.
 	NilForUnknown bool
 	// IgnoreCtx: the storage does not look at the request's context (a driver that finishes what it started).
@@ -289,7 +337,9 @@ func (timeoutError) Unwrap() error   { return context.DeadlineExceeded }
 // temporaryError is a net.OpError-like failure: Temporary() and Timeout() say yes, no context error is wrapped.
 type temporaryError struct{}
 
-func (temporaryError) Error() string   { return "injected storage fault: dial tcp 192.0.2.7:5432: i/o timeout" }
+func (temporaryError) Error() string {
+	return "injected storage fault: dial tcp 192.0.2.7:5432: i/o timeout"
+}
 func (temporaryError) Timeout() bool   { return true }
 func (temporaryError) Temporary() bool { return true }
 
